@@ -1,32 +1,51 @@
 """C19 -- a job accepted by JobBuilder.build is well formed and carries the values given.
 
-Generator: task expressions (from_callable over generated signatures, from_entrypoint, raw
-TaskInstance, chains of with_values) and a TREE of derived builders (every op derives a new
-builder from any earlier one).  Every builder of the tree is built.
-Oracle (direct reading of the property on the real objects): build never raises on in-domain
-input and returns exactly one of job / non-empty problem list; an accepted job has exactly the
-nodes and edges given, every edge is well formed with respect to the *generator's own* record of
-signatures and schemas; with_values puts values under exactly the given positions / names and
-leaves the task it was derived from alone; jobs and builders built earlier never change.
-Correspondence: the same expressions / tree are evaluated by the Coq model (Low/Builders.v) and
-compared with everything observed (schemas, statics, job, number of problems, exception name)."""
+Generator: per case a POOL OF VALUE OBJECTS (builtin literals, subclasses of builtins, enum members, paths,
+decimals, numpy arrays and scalars, dataclass / frozen dataclass / pydantic-model / plain instances, named
+tuples, sets, ordered / default dicts, empty and large containers, containers that hold EARLIER pool objects,
+a self-containing list), a FOREST of tasks (from_callable over generated signatures in several flavours --
+def, lambda, bound method, callable object, staticmethod, partial; kept alive or dropped; the same callable
+used again --, from_entrypoint, raw TaskInstance / TaskBuilder, and with_values derived from ANY earlier task,
+so the same builder is extended several times and in several directions, with the same value objects bound
+again and again, positionally and by keyword, also as defaults of the callable), and a TREE of derived job
+builders (every op derives a new builder from any earlier one).  Every builder of the tree is built.
+Oracle (direct reading of the property on the real objects): build never raises on in-domain input and
+returns exactly one of job / non-empty problem list; an accepted job has exactly the nodes and edges given,
+every edge is well formed with respect to the *generator's own* record of signatures and schemas; with_values
+puts values under exactly the given positions / names -- the WHOLE value: class and every part, compared with
+what the generator made, not with what the parent task reports -- and leaves every earlier task alone; the
+task in the job still carries the callable it was made from; jobs, builders, tasks and value objects made
+earlier never change.
+Correspondence: the same forest / tree is evaluated by the Coq model (Low/Builders.v, values with parts)
+and compared with everything observed (schemas, statics, job, number of problems, exception name)."""
 import builtins
+import itertools
 import json
+import os
+import re
+import sys
+import types
 
-from common import cN, cZ, cnat, clist, copt, cstr, coq_results
+from common import BUILD, cN, cZ, cnat, clist, copt, cstr, coq_eval_file
 
 TRUSTED = [
-    "harness/c19.py: generated source text of callables (exec), the value pool (a value is identified by class name and repr), "
+    "harness/c19.py: generated source text of callables (exec) and the generator's record of their signature for every flavour "
+    "(def / lambda / bound method / callable object / staticmethod / partial), the value pool and `canon` (how a Python value is "
+    "written as a Coq value: atoms by class name and text, parts recursively; sets and dict items in a canonical order), "
     "the default `frum` of with_edge is written out as \"0\" in the Coq case",
 ]
 ASSUMPTIONS = [
     "Section variables of Low/Builders.v: PyT, evalty (what eval(name) resolves to inside builders.py, None = NameError), "
     "isinst (isinstance), issub (issubclass); the theorems hold for every choice of them",
-    "the correspondence instantiates them on the closed class set int,str,float,bool,bytes,list,dict,tuple,object "
-    "(issubclass = reflexive, below object, bool below int); a Python value is opaque (class name, identity)",
+    "the correspondence instantiates them on the closed class set int,str,float,bool,bytes,list,dict,tuple,object plus the classes "
+    "of the bound values (Low/BuildersCheck.v class_bases, compared with the real issubclass before every run); a Python value is "
+    "its class, and its parts for sequences / mappings / instances with attributes; an atom (number, string, array, enum member, "
+    "function ...) is opaque: class name and identity",
     "C19_build_never_raises assumes every declared type of every node is \"Any\" or resolvable by eval (the property's domain: builtin or absent annotations)",
     "persistence (building never mutates earlier jobs) is definitional in the functional model; for the implementation it is observed on every tree, not proved",
     "pydantic validation inside JobInstance(...) / Task2TaskEdge(...) and cloudpickle of the callable are not modelled",
+    "Low/BuilderValues.v: `conv` (what a rebuild does to a value already held) is a Section variable; `flatten` is one concrete "
+    "instance for examples, nothing is claimed about pydantic's own serialisation",
 ]
 
 HEADER = """From Coq Require Import List String ZArith NArith.
@@ -35,26 +54,241 @@ Import ListNotations.
 Open Scope string_scope.
 """
 
-# ------------------------------------------------------------------------------ value pool
-# (python literal, class name); a value is referred to by its index everywhere
-VALUES = [("0", "int"), ("1", "int"), ("-5", "int"), ("1099511627776", "int"), ("True", "bool"), ("False", "bool"),
-          ("'a'", "str"), ("''", "str"), ("'int'", "str"), ("1.5", "float"), ("b'x'", "bytes"), ("[1, 2]", "list"),
-          ("{'k': 1}", "dict"), ("(1, 2)", "tuple"), ("None", "NoneType")]
-POOL = [eval(src) for src, _ in VALUES]
-CANON = {(t, repr(v)): i for i, ((_, t), v) in enumerate(zip(VALUES, POOL))}
+# ------------------------------------------------------------------------------ the module the value classes live in
+_VSRC = '''
+import collections, dataclasses, datetime, decimal, enum, fractions, functools, pathlib
+from typing import Any
+import numpy as np
+from pydantic import BaseModel
+
+
+@dataclasses.dataclass
+class Area:
+    north: Any
+    south: Any = -90.0
+
+
+@dataclasses.dataclass(frozen=True)
+class Grid:
+    dx: Any = 1.0
+    dy: Any = 1.0
+
+
+class Req(BaseModel):
+    param: Any = "2t"
+    step: Any = 0
+
+
+class Plain:
+    def __init__(self, **kw):
+        self.__dict__.update(kw)
+
+
+class Anything:
+    """equal to everything (as unittest.mock.ANY)"""
+    def __eq__(self, other):
+        return True
+
+    def __ne__(self, other):
+        return False
+
+    def __hash__(self):
+        return 7
+
+
+NT = collections.namedtuple("NT", "a b")
+
+
+class MyList(list):
+    pass
+
+
+class MyDict(dict):
+    pass
+
+
+class MyInt(int):
+    pass
+
+
+class MyStr(str):
+    pass
+
+
+class Col(enum.Enum):
+    R = 1
+    G = 2
+
+
+class Lvl(enum.IntEnum):
+    LO = 1
+    HI = 2
+
+
+def cyc():
+    l = [1]
+    l.append(l)
+    return l
+'''
+_VMOD = None
+
+
+def vmod():
+    global _VMOD
+    if _VMOD is None:
+        m = types.ModuleType("c19vals")
+        sys.modules["c19vals"] = m          # importable: cloudpickle refers to the classes by name
+        exec(_VSRC, m.__dict__)
+        for n in ("Area", "Grid", "Req", "Plain", "Anything", "NT", "MyList", "MyDict", "MyInt", "MyStr", "Col", "Lvl"):
+            getattr(m, n).__module__ = "c19vals"
+        _VMOD = m
+    return _VMOD
+
+
 BUILTIN = ["int", "str", "float", "bool", "bytes", "list", "dict", "tuple", "object"]
-BY_TYPE = {}
-for _i, (_s, _t) in enumerate(VALUES):
-    for _b in BUILTIN:
-        if _t in vars(builtins) and issubclass(getattr(builtins, _t), getattr(builtins, _b)):
-            BY_TYPE.setdefault(_b, []).append(_i)
+# the Coq table Low/BuildersCheck.v class_bases: proper builtin bases (other than object) of the classes of bound values
+CLASS_BASES = {("bool", "int"), ("MyInt", "int"), ("Lvl", "int"), ("MyStr", "str"), ("float64", "float"), ("MyList", "list"),
+               ("MyDict", "dict"), ("OrderedDict", "dict"), ("defaultdict", "dict"), ("NT", "tuple")}
+
+# sources of values; `_vK` inside a source = the K-th value object of the same case (the SAME object, not a copy)
+PLAIN_ATOMS = ["0", "1", "-5", "1099511627776", "True", "False", "'a'", "''", "'int'", "1.5", "b'x'", "None"]
+PLAIN_CONT = ["[1, 2]", "{'k': 1}", "(1, 2)"]
+ODD_ATOMS = ["float('nan')", "float('inf')", "-0.0", "1j", "bytearray(b'y')", "...", "'x' * 300", "'\\u00e9\\n\"q\"'", "MyInt(3)", "MyStr('s')",
+             "Col.R", "Col.G", "Lvl.HI", "pathlib.PurePosixPath('/x/y')", "decimal.Decimal('1.50')", "datetime.date(2020, 1, 2)",
+             "datetime.timedelta(hours=6)", "fractions.Fraction(1, 3)", "np.float64(1.5)", "np.int32(7)", "np.bool_(True)", "np.arange(3)",
+             "np.zeros((2, 2))", "np.array([])", "np.array([7])", "np.array(5.0)", "np.array(['a', 'b'])", "range(3)", "len", "int", "Area",
+             "abs", "Anything()", "2 ** 70", "b''", "iter([1, 2])"]
+EMPTY = ["[]", "{}", "()", "set()", "frozenset()", "MyList()", "MyDict()", "collections.OrderedDict()", "collections.defaultdict(list)", "Plain()"]
+HASHABLE = ["0", "1", "'a'", "'k'", "None", "Col.R", "(1, 2)", "Grid(0.5, 0.5)", "1.5", "frozenset({1})", "Lvl.LO", "True", "b'x'"]
+KEYS = ["'k'", "'north'", "'a'", "1", "0", "'0'", "''", "(1, 2)", "None", "Col.G"]
+BIG = ["list(range(200))", "{str(i): i for i in range(60)}", "tuple('abc' * 20)", "[[i, [i]] for i in range(25)]", "np.arange(5000)", "b'z' * 4096"]
+# values of the exhaustive (value, parameter type) matrix
+MATRIX_VALUES = PLAIN_ATOMS + PLAIN_CONT + ["MyInt(3)", "MyStr('s')", "Col.R", "Lvl.HI", "np.float64(1.5)", "np.arange(3)", "MyList([1])", "MyDict(a=1)",
+                                             "collections.OrderedDict(a=1)", "collections.defaultdict(list)", "NT(1, 2)", "Area(90.0)", "Grid()",
+                                             "Req(param='t', step=6)", "Plain(a=1)", "{1, 2}", "frozenset({1})", "pathlib.PurePosixPath('/x')", "len", "int"]
+
 NODE_NAMES = ["a", "b", "c", "t.1", "x y"]
-PARAM_NAMES = ["x", "y", "z", "k", "i", "v", "w"]
+PARAM_NAMES = ["x", "y", "z", "k", "i", "v", "w", "self", "cls", "f", "area", "definition", "static_input_kw", "update", "environment", "into", "_", "x1"]
+TYS = BUILTIN + ["Any"]
 
 
-def vcanon(v):
-    """index into the pool, or a description of a foreign value"""
-    return CANON.get((type(v).__name__, repr(v)), f"foreign:{type(v).__name__}:{v!r}")
+# ------------------------------------------------------------------------------ values -> canonical description
+def clsname(v):
+    """the class of a value by name; a class that merely shares its name with a builtin (numpy.bool) is qualified"""
+    t = type(v)
+    n = t.__name__
+    return n if t.__module__ == "builtins" or not hasattr(builtins, n) else t.__module__ + "." + n
+
+
+def canon(v, stack=()):
+    """a Python value as class + parts, without addresses: ["a", class, text] | ["s", class, items] |
+    ["m", class, [[key, value]]] | ["o", kind, class, [[field, value]]]"""
+    import dataclasses
+    import enum
+    import numpy as np
+    from pydantic import BaseModel
+    cls = clsname(v)
+    if id(v) in stack:
+        return ["a", cls, "<the container itself>"]
+    st = stack + (id(v),)
+    if isinstance(v, enum.Enum):
+        return ["a", cls, v.name]
+    if isinstance(v, np.ndarray):
+        return ["a", cls, f"{v.dtype}{list(v.shape)}{v.tolist()!r}"]
+    if v is None or v is Ellipsis or isinstance(v, (bool, int, float, complex, str, bytes, bytearray, range, np.generic)):
+        return ["a", cls, repr(v)]
+    if isinstance(v, type):
+        return ["a", cls, v.__name__]
+    if hasattr(v, "__next__"):                         # a one-shot iterator: what is left of it
+        import operator
+        return ["a", cls, f"{operator.length_hint(v, -1)} left"]
+    if dataclasses.is_dataclass(v):
+        return ["o", "dataclass", cls, [[f.name, canon(getattr(v, f.name, None), st)] for f in dataclasses.fields(v)]]
+    if isinstance(v, BaseModel):
+        return ["o", "pydantic", cls, [[k, canon(x, st)] for k, x in v.__dict__.items()]]
+    if isinstance(v, (list, tuple)):
+        return ["s", cls, [canon(x, st) for x in v]]
+    if isinstance(v, (set, frozenset)):
+        return ["s", cls, sorted((canon(x, st) for x in v), key=jdump)]
+    if isinstance(v, dict):
+        return ["m", cls, sorted(([canon(k, st), canon(x, st)] for k, x in v.items()), key=jdump)]
+    if callable(v) and hasattr(v, "__qualname__"):
+        return ["a", cls, v.__qualname__]
+    if type(v).__repr__ is object.__repr__ and hasattr(v, "__dict__"):
+        return ["o", "plain", cls, sorted([k, canon(x, st)] for k, x in vars(v).items())]
+    r = repr(v)
+    return ["a", cls, r if " at 0x" not in r else "<opaque>"]
+
+
+def show(c, limit=160):
+    """short human text of a canonical value"""
+    if c[0] == "a":
+        s = f"{c[2]}" if c[1] in ("int", "str", "float", "bool", "NoneType", "bytes") else f"{c[1]}<{c[2]}>"
+    elif c[0] == "s":
+        s = f"{c[1]}[" + ", ".join(show(x, 40) for x in c[2][:6]) + (", ..." if len(c[2]) > 6 else "") + "]"
+    elif c[0] == "m":
+        s = f"{c[1]}{{" + ", ".join(show(k, 30) + ": " + show(x, 40) for k, x in c[2][:6]) + (", ..." if len(c[2]) > 6 else "") + "}"
+    else:
+        s = f"{c[2]}(" + ", ".join(f"{k}={show(x, 40)}" for k, x in c[3][:6]) + f") [{c[1]} instance]"
+    return s if len(s) <= limit else s[:limit] + "..."
+
+
+def jdump(x):
+    return json.dumps(x, sort_keys=True, default=str)
+
+
+class Interner:
+    """atoms get a number by (class, text); one table per run"""
+    def __init__(self):
+        self.t = {}
+
+    def atom(self, cls, text):
+        return self.t.setdefault((cls, text), len(self.t))
+
+
+INTERN = Interner()
+OKIND = {"dataclass": "ODataclass", "pydantic": "OPydantic", "plain": "OPlain"}
+
+
+def cvalue(c, names=None):
+    """canonical value -> Coq term; `names`: {json of a canonical value: name of a let-bound Coq variable}"""
+    if names is not None and c[0] != "a":
+        n = names.get(jdump(c))
+        if n is not None:
+            return n
+    if c[0] == "a":
+        return f"(V {cstr(c[1])} {cN(INTERN.atom(c[1], c[2]))})"
+    if c[0] == "s":
+        return f"(VSeq {cstr(c[1])} {clist([cvalue(x, names) for x in c[2]])})"
+    if c[0] == "m":
+        return f"(VMap {cstr(c[1])} {clist(['(' + cvalue(k, names) + ', ' + cvalue(x, names) + ')' for k, x in c[2]])})"
+    return f"(VObj {OKIND[c[1]]} {cstr(c[2])} {clist(['(' + cstr(k) + ', ' + cvalue(x, names) + ')' for k, x in c[3]])})"
+
+
+def make_values(case):
+    """the value objects of a case, in order; later sources may refer to earlier objects as _vK"""
+    ns = dict(vmod().__dict__)
+    objs = []
+    for i, src in enumerate(case["values"]):
+        v = eval(src, ns)
+        ns[f"_v{i}"] = v
+        objs.append(v)
+    return objs
+
+
+def check_class_table():
+    """Low/BuildersCheck.v c_issub must be the real issubclass on (class of a value, builtin name)"""
+    bad = []
+    srcs = sorted(set(PLAIN_ATOMS + PLAIN_CONT + ODD_ATOMS + EMPTY + HASHABLE + MATRIX_VALUES + BIG + ["NT(1, 2)", "Req()", "cyc()"]))
+    ns = dict(vmod().__dict__)
+    for src in srcs:
+        v = eval(src, ns)
+        c = clsname(v)
+        for b in BUILTIN:
+            model = c == b or b == "object" or (c, b) in CLASS_BASES
+            if model != isinstance(v, getattr(builtins, b)):
+                bad.append(f"isinstance({src}, {b}) is {not model}, the class table says {model}")
+    return bad
 
 
 # ------------------------------------------------------------------------------ specs -> python objects
@@ -72,7 +306,7 @@ def ann_in_domain(a):
     return a[0] == "empty" or (a[0] in ("type", "str", "generic") and a[-1] in BUILTIN)
 
 
-def callable_src(spec):
+def params_src(spec, lam=False):
     groups = {"posonly": [], "poskw": [], "varpos": [], "kwonly": [], "varkw": []}
     for p in spec["params"]:
         s = p["name"]
@@ -80,11 +314,11 @@ def callable_src(spec):
             s = "*" + s
         if p["kind"] == "varkw":
             s = "**" + s
-        a = ann_src(p["ann"])
+        a = None if lam else ann_src(p["ann"])
         if a is not None:
             s += ": " + a
         if p["default"] is not None:
-            s += " = " + VALUES[p["default"]][0]
+            s += (" = " if a is not None else "=") + f"_v{p['default']}"
         groups[p["kind"]].append(s)
     parts = list(groups["posonly"])
     if groups["posonly"]:
@@ -95,68 +329,148 @@ def callable_src(spec):
     elif groups["kwonly"]:
         parts.append("*")
     parts += groups["kwonly"] + groups["varkw"]
+    return parts
+
+
+def callable_src(spec, token):
+    """source text that leaves the callable in `f`"""
+    fl = spec.get("flavour", "def")
     r = ann_src(spec["ret"])
-    return "def f(" + ", ".join(parts) + ")" + (" -> " + r if r is not None else "") + ":\n    return 0\n"
+    ret = " -> " + r if r is not None else ""
+    body = f"        {token!r}\n        return 0\n"
+    if fl == "lambda":
+        return "f = lambda " + ", ".join(params_src(spec, lam=True)) + ": 0\n"
+    ps = params_src(spec)
+    if fl in ("def", "partial"):
+        s = "def f(" + ", ".join(ps) + ")" + ret + f":\n    {token!r}\n    return 0\n"
+        return s + ("import functools\nf = functools.partial(f)\n" if fl == "partial" else "")
+    if fl == "method":
+        return "class C:\n    def f(" + ", ".join(["this"] + ps) + ")" + ret + ":\n" + body + "f = C().f\n"
+    if fl == "callobj":
+        return "class C:\n    def __call__(" + ", ".join(["this"] + ps) + ")" + ret + ":\n" + body + "f = C()\n"
+    if fl == "static":
+        return "class C:\n    @staticmethod\n    def f(" + ", ".join(ps) + ")" + ret + ":\n" + body + "f = C.f\n"
+    raise ValueError(fl)
 
 
-_NS = None
+def doc_of(f):
+    """the token written into the generated callable"""
+    import functools
+    if isinstance(f, functools.partial):
+        f = f.func
+    d = getattr(f, "__doc__", None)
+    if isinstance(d, str) and d.startswith("tok-"):
+        return d
+    d = getattr(getattr(type(f), "__call__", None), "__doc__", None)
+    return d if isinstance(d, str) and d.startswith("tok-") else None
 
 
-def exec_ns():
-    global _NS
-    if _NS is None:
-        _NS = {"__name__": "c19gen"}
-        exec("class Foo:\n    pass\nclass Bar(Foo):\n    pass\n", _NS)
-    return _NS
+class Env:
+    """the live objects of one case"""
+    def __init__(self, case):
+        self.case = case
+        self.values = make_values(case)
+        self.vcanon = [canon(v) for v in self.values]          # taken BEFORE the implementation sees any of them
+        self.funcs = {}                                          # task index -> the callable, kept alive when the spec says so
+        self.tokens = {}                                         # task index -> token the task's callable must carry
+
+    def realise(self, ix, objs):
+        """task spec -> real object (raises what the implementation raises)"""
+        from cascade.low.builders import TaskBuilder
+        from cascade.low.core import TaskDefinition, TaskInstance
+        te = self.case["tasks"][ix]
+        k = te["kind"]
+        V = self.values
+        if k == "callable":
+            tok = None if te.get("flavour") == "lambda" else f"tok-{next(_TOKENS)}"
+            ns = {"__name__": "c19gen", "Foo": _odd()[0], "Bar": _odd()[1], **{f"_v{i}": v for i, v in enumerate(V)}}
+            exec(callable_src(te, tok), ns)
+            f = ns["f"]
+            if te.get("keep"):
+                self.funcs[ix] = f
+            self.tokens[ix] = tok
+            return TaskBuilder.from_callable(f, te["env"]) if te.get("env") is not None else TaskBuilder.from_callable(f)
+        if k == "again":
+            self.tokens[ix] = self.tokens.get(te["of"])
+            return TaskBuilder.from_callable(self.funcs[te["of"]])
+        if k == "entrypoint":
+            return TaskBuilder.from_entrypoint("mod.fn", dict(te["ischema"]), te["out"])
+        if k == "raw":
+            d = TaskDefinition(entrypoint="mod.raw", func=None, environment=[], input_schema=dict(te["ischema"]), output_schema=dict(te["oschema"]))
+            cls = TaskBuilder if te.get("builder") else TaskInstance
+            return cls(definition=d, static_input_kw={n: V[i] for n, i in te["kw"]}, static_input_ps={n: V[i] for n, i in te["ps"]})
+        if k == "with":
+            base = objs[te["base"]]
+            if base is None:
+                raise LookupError("base task was not created")
+            self.tokens[ix] = self.tokens.get(te["base"])
+            return base.with_values(*[V[i] for i in te["args"]], **{n: V[i] for n, i in te["kwargs"]})
+        raise ValueError(k)
 
 
-def realise(te):
-    """task expression -> real object (raises what the implementation raises)"""
-    from cascade.low.builders import TaskBuilder
-    from cascade.low.core import TaskDefinition, TaskInstance
-    k = te["kind"]
-    if k == "callable":
-        ns = dict(exec_ns())
-        exec(callable_src(te), ns)
-        return TaskBuilder.from_callable(ns["f"])
-    if k == "entrypoint":
-        return TaskBuilder.from_entrypoint("mod.fn", dict(te["ischema"]), te["out"])
-    if k == "raw":
-        d = TaskDefinition(entrypoint="mod.raw", func=None, environment=[], input_schema=dict(te["ischema"]), output_schema=dict(te["oschema"]))
-        cls = TaskBuilder if te.get("builder") else TaskInstance
-        return cls(definition=d, static_input_kw={n: POOL[i] for n, i in te["kw"]}, static_input_ps={n: POOL[i] for n, i in te["ps"]})
-    if k == "with":
-        base = realise(te["base"])
-        return base.with_values(*[POOL[i] for i in te["args"]], **{n: POOL[i] for n, i in te["kwargs"]})
-    raise ValueError(k)
+_ODD = None
+_TOKENS = itertools.count()
 
 
-def spec_schema(te):
+def _odd():
+    global _ODD
+    if _ODD is None:
+        ns = {"__name__": "c19gen"}
+        exec("class Foo:\n    pass\nclass Bar(Foo):\n    pass\n", ns)
+        _ODD = (ns["Foo"], ns["Bar"])
+    return _ODD
+
+
+def root_of(tasks, ix):
+    while tasks[ix]["kind"] in ("with", "again"):
+        ix = tasks[ix]["base"] if tasks[ix]["kind"] == "with" else tasks[ix]["of"]
+    return ix
+
+
+def spec_schema(tasks, ix):
     """(input schema, output schema) as the generator knows them -- NOT via inspect"""
+    te = tasks[root_of(tasks, ix)]
     k = te["kind"]
     if k == "callable":
         return ({p["name"]: ann_name(p["ann"]) for p in te["params"] if p["kind"] in ("poskw", "kwonly")}, {"0": ann_name(te["ret"])})
     if k == "entrypoint":
         return (dict(te["ischema"]), {"0": te["out"]})
-    if k == "raw":
-        return (dict(te["ischema"]), dict(te["oschema"]))
-    return spec_schema(te["base"])
+    return (dict(te["ischema"]), dict(te["oschema"]))
 
 
-def te_in_domain(te):
+def spec_statics(tasks, ix):
+    """(keyword statics, positional statics) as {name: value index}, from the specs alone"""
+    te = tasks[ix]
     k = te["kind"]
     if k == "callable":
+        return ({p["name"]: p["default"] for p in te["params"] if p["kind"] in ("poskw", "kwonly") and p["default"] is not None}, {})
+    if k == "again":
+        return spec_statics(tasks, te["of"])
+    if k == "entrypoint":
+        return ({}, {})
+    if k == "raw":
+        return ({n: i for n, i in te["kw"]}, {n: i for n, i in te["ps"]})
+    kw, ps = spec_statics(tasks, te["base"])
+    kw, ps = dict(kw), dict(ps)
+    kw.update({n: i for n, i in te["kwargs"]})
+    ps.update({str(p): i for p, i in enumerate(te["args"])})
+    return kw, ps
+
+
+def te_in_domain(tasks, ix):
+    te = tasks[root_of(tasks, ix)]
+    if te["kind"] == "callable":
         return all(ann_in_domain(p["ann"]) for p in te["params"]) and ann_in_domain(te["ret"])
-    if k == "with":
-        return te_in_domain(te["base"])
-    i, o = spec_schema(te)
+    i, o = spec_schema(tasks, ix)
     return all(t == "Any" or t in BUILTIN for t in list(i.values()) + list(o.values()))
 
 
 def task_canon(t):
+    import hashlib
     d = t.definition
     return {"ischema": dict(d.input_schema), "oschema": dict(d.output_schema),
-            "kw": {k: vcanon(v) for k, v in t.static_input_kw.items()}, "ps": {k: vcanon(v) for k, v in t.static_input_ps.items()}}
+            "kw": {k: canon(v) for k, v in t.static_input_kw.items()}, "ps": {k: canon(v) for k, v in t.static_input_ps.items()},
+            "def": [d.entrypoint, hashlib.md5((d.func or "").encode()).hexdigest()[:10] if d.func else None, list(d.environment), bool(d.needs_gpu)]}
 
 
 def job_canon(j):
@@ -165,32 +479,107 @@ def job_canon(j):
             "serdes": dict(j.serdes), "ext": [repr(x) for x in j.ext_outputs]}
 
 
-def jdump(x):
-    return json.dumps(x, sort_keys=True, default=str)
-
-
 # ------------------------------------------------------------------------------ generator
+def gen_value_src(rng, navail, depth=2):
+    """source of one value; may refer to the first `navail` values of the case"""
+    def part(hashable=False):
+        r = rng.random()
+        if hashable:
+            return rng.choice(HASHABLE)
+        if navail and r < 0.3:
+            return f"_v{rng.randrange(navail)}"
+        if depth > 0 and r < 0.45:
+            return gen_value_src(rng, navail, depth - 1)
+        if r < 0.8:
+            return rng.choice(PLAIN_ATOMS + PLAIN_CONT)
+        return rng.choice(ODD_ATOMS + EMPTY)
+    form = rng.choice(["list", "tuple", "tuple1", "set", "frozenset", "dict", "dict", "MyList", "MyDict", "OrderedDict", "defaultdict", "NT",
+                       "Area", "Area", "Area1", "Grid", "Req", "Req", "Plain", "cyc", "nested-obj"])
+    if form == "list":
+        return "[" + ", ".join(part() for _ in range(rng.randrange(1, 4))) + "]"
+    if form == "tuple":
+        return "(" + ", ".join(part() for _ in range(2)) + ")"
+    if form == "tuple1":
+        return "(" + part() + ",)"
+    if form in ("set", "frozenset"):
+        s = "{" + ", ".join(part(True) for _ in range(rng.randrange(1, 4))) + "}"
+        return s if form == "set" else f"frozenset({s})"
+    if form == "dict":
+        ks = rng.sample(KEYS, rng.randrange(1, 4))
+        return "{" + ", ".join(f"{k}: {part()}" for k in ks) + "}"
+    if form == "MyList":
+        return f"MyList([{part()}])"
+    if form == "MyDict":
+        return f"MyDict(a={part()})"
+    if form == "OrderedDict":
+        return f"collections.OrderedDict(b={part()}, a={part()})"
+    if form == "defaultdict":
+        return f"collections.defaultdict(list, {{'k': {part()}}})"
+    if form == "NT":
+        return f"NT({part()}, {part()})"
+    if form == "Area":
+        return f"Area({part()}, {part()})"
+    if form == "Area1":
+        return f"Area(north={part()})"
+    if form == "Grid":
+        return f"Grid({part(True)}, {part(True)})"
+    if form == "Req":
+        return f"Req(param={part()}, step={part()})"
+    if form == "Plain":
+        return f"Plain(p={part()}, q={part()})"
+    if form == "cyc":
+        return "cyc()"
+    return rng.choice(["[Area(1.0, 2.0)]", "{'k': Req(param='b', step=2)}", "(1, [Grid()])", "Area(Req(), Area(0.0))", "Req(param=Area(1, 2), step=[Plain(a=1)])",
+                       "{'a': {'b': {'c': Area(1.0)}}}", "[NT(1, Area(2.0))]", "Plain(p=Plain(q=Col.R))"])
+
+
+def gen_values(rng):
+    srcs = [rng.choice(PLAIN_ATOMS) for _ in range(rng.choice([2, 3, 3, 4]))]
+    srcs += [rng.choice(PLAIN_CONT) for _ in range(rng.choice([0, 1, 1]))]
+    for _ in range(rng.choice([0, 1, 2, 3])):
+        r = rng.random()
+        srcs.append(rng.choice(ODD_ATOMS) if r < 0.7 else rng.choice(EMPTY) if r < 0.93 else rng.choice(BIG))
+    rng.shuffle(srcs)
+    for _ in range(rng.choice([0, 1, 2, 3, 4])):
+        srcs.append(gen_value_src(rng, len(srcs)))
+    return srcs
+
+
+class Picker:
+    """picks value indexes; fits = real isinstance of the live objects"""
+    def __init__(self, values):
+        self.n = len(values)
+        self.by_type = {b: [i for i, v in enumerate(values) if isinstance(v, getattr(builtins, b))] for b in BUILTIN}
+        self.structured = [i for i, v in enumerate(values) if canon(v)[0] != "a"]
+
+    def any(self, rng):
+        if self.structured and rng.random() < 0.4:
+            return rng.choice(self.structured)
+        return rng.randrange(self.n)
+
+    def for_type(self, rng, tname, good=0.88):
+        if rng.random() < good and self.by_type.get(tname):
+            return rng.choice(self.by_type[tname])
+        return self.any(rng)
+
+
 def gen_ann(rng, odd):
     r = rng.random()
     if odd and r < 0.25:
         return rng.choice([["none"], ["custom", "Foo"], ["custom", "Bar"], ["str", "_empty"], ["str", "ndarray"]])
-    if r < 0.3:
+    if r < 0.4:
         return ["empty"]
-    if r < 0.8:
+    if r < 0.82:
         return ["type", rng.choice(BUILTIN)]
-    if r < 0.92:
+    if r < 0.93:
         return ["str", rng.choice(BUILTIN)]
     return ["generic", rng.choice(["list", "dict", "tuple"])]
 
 
-def gen_value_for(rng, tname, good=0.75):
-    if rng.random() < good and tname in BY_TYPE:
-        return rng.choice(BY_TYPE[tname])
-    return rng.randrange(len(VALUES))
-
-
-def gen_callable(rng, odd):
-    names = rng.sample(PARAM_NAMES, rng.choice([0, 1, 2, 2, 3, 3, 4, 5]))
+def gen_callable(rng, odd, pick):
+    names = rng.sample(PARAM_NAMES[:7] * 3 + PARAM_NAMES[7:], 12)
+    names = list(dict.fromkeys(names))[:rng.choice([0, 1, 2, 2, 3, 3, 4, 5, 7])]
+    flavour = rng.choice(["def"] * 6 + ["lambda", "method", "callobj", "static", "partial"])
     kinds = []
     for _ in names:
         kinds.append(rng.choice(["poskw"] * 6 + ["kwonly"] * 3 + ["posonly"]))
@@ -200,50 +589,67 @@ def gen_callable(rng, odd):
     npos = sum(1 for k in kinds if k in ("posonly", "poskw"))
     cut = rng.randrange(npos + 1) if npos else 0      # positional parameters from `cut` on carry defaults
     for i, (n, k) in enumerate(zip(names, kinds)):
-        a = gen_ann(rng, odd)
+        a = ["empty"] if flavour == "lambda" else gen_ann(rng, odd)
         has_def = (i >= cut) if k in ("posonly", "poskw") else rng.random() < 0.5
-        d = gen_value_for(rng, ann_name(a), 0.8) if has_def else None
+        d = pick.for_type(rng, ann_name(a), 0.9) if has_def else None
         params.append({"name": n, "kind": k, "ann": a, "default": d})
     if rng.random() < 0.2:
         params.append({"name": "args", "kind": "varpos", "ann": ["empty"], "default": None})
     if rng.random() < 0.2:
-        params.append({"name": "kwargs", "kind": "varkw", "ann": gen_ann(rng, False), "default": None})
+        params.append({"name": "kwargs", "kind": "varkw", "ann": ["empty"] if flavour == "lambda" else gen_ann(rng, False), "default": None})
     kord = {"posonly": 0, "poskw": 1, "varpos": 2, "kwonly": 3, "varkw": 4}
     params.sort(key=lambda p: kord[p["kind"]])
-    return {"kind": "callable", "params": params, "ret": gen_ann(rng, odd)}
+    return {"kind": "callable", "params": params, "ret": ["empty"] if flavour == "lambda" else gen_ann(rng, odd), "flavour": flavour,
+            "keep": rng.random() < 0.5, "env": rng.choice([None, None, None, [], ["numpy"]])}
 
 
-def gen_with(rng, base, unknown_kw=0.08):
-    isch, _ = spec_schema(base)
+def gen_with(rng, tasks, base, pick, unknown_kw=0.05):
+    isch, _ = spec_schema(tasks, base)
     kwargs = []
+    dense = rng.random() < 0.5
     for n, t in isch.items():
-        if rng.random() < 0.5:
-            kwargs.append([n, gen_value_for(rng, t)])
+        if rng.random() < (0.6 if dense else 0.25):
+            kwargs.append([n, pick.for_type(rng, t)])
     if rng.random() < unknown_kw:
-        kwargs.append([rng.choice(["q", "kwargs", "args", "0"]), rng.randrange(len(VALUES))])
+        kwargs.append([rng.choice(["q", "kwargs", "args", "0", "self", "cls"]), pick.any(rng)])
+    kwargs = list({n: [n, i] for n, i in kwargs}.values())
     rng.shuffle(kwargs)
-    args = [rng.randrange(len(VALUES)) for _ in range(rng.choice([0, 0, 0, 1, 2, 3, 11]))] if rng.random() < 0.45 else []
+    args = [pick.any(rng) for _ in range(rng.choice([0, 0, 0, 1, 2, 3, 11]))] if rng.random() < 0.45 else []
+    if args and rng.random() < 0.3:
+        args = [args[0]] * len(args)                    # the same object in several positions
     return {"kind": "with", "base": base, "args": args, "kwargs": kwargs}
 
 
-def gen_texpr(rng, odd):
-    r = rng.random()
-    if r < 0.68:
-        te = gen_callable(rng, odd)
-    elif r < 0.78:
-        te = {"kind": "entrypoint", "ischema": [[n, rng.choice(BUILTIN + ["Any"])] for n in rng.sample(PARAM_NAMES, rng.randrange(3))], "out": rng.choice(BUILTIN + ["Any"])}
-    else:
-        tys = BUILTIN + ["Any"] + (["ndarray", "", "grib", "grib.mir", "grib.earthkit"] if odd else [])
-        outs = rng.choice([["0"], ["0", "1"], ["o"], ["0", "1", "10", "2"]])
-        isch = [[n, rng.choice(tys)] for n in rng.sample(PARAM_NAMES, rng.randrange(4))]
-        te = {"kind": "raw", "ischema": isch, "oschema": [[o, rng.choice(tys)] for o in outs],
-              "kw": [[n, gen_value_for(rng, t)] for n, t in isch if rng.random() < 0.3],
-              "ps": [[str(i), rng.randrange(len(VALUES))] for i in range(rng.choice([0, 0, 1, 2]))], "builder": rng.random() < 0.5}
-    for _ in range(rng.choice([0, 1, 1, 2, 3])):
-        if te["kind"] == "raw" and not te.get("builder"):
+def gen_tasks(rng, odd, pick):
+    tasks = []
+    nroots = rng.randrange(2, 5)
+    for _ in range(nroots):
+        r = rng.random()
+        if r < 0.68:
+            te = gen_callable(rng, odd, pick)
+        elif r < 0.78:
+            te = {"kind": "entrypoint", "ischema": [[n, rng.choice(TYS)] for n in rng.sample(PARAM_NAMES, rng.randrange(3))], "out": rng.choice(TYS)}
+        else:
+            tys = TYS + (["ndarray", "", "grib", "grib.mir", "grib.earthkit"] if odd else [])
+            outs = rng.choice([["0"], ["0", "1"], ["o"], ["0", "1", "10", "2"]])
+            isch = [[n, rng.choice(tys)] for n in rng.sample(PARAM_NAMES, rng.randrange(4))]
+            te = {"kind": "raw", "ischema": isch, "oschema": [[o, rng.choice(tys)] for o in outs],
+                  "kw": [[n, pick.for_type(rng, t)] for n, t in isch if rng.random() < 0.3],
+                  "ps": [[str(i), pick.any(rng)] for i in range(rng.choice([0, 0, 1, 2]))], "builder": rng.random() < 0.5}
+        tasks.append(te)
+    # derived tasks: with_values on ANY earlier builder (chains and branches), the same callable once more
+    for _ in range(rng.choice([1, 2, 3, 4, 5, 6])):
+        cand = [i for i, t in enumerate(tasks) if not (t["kind"] == "raw" and not t.get("builder"))]
+        if not cand:
             break
-        te = gen_with(rng, te)
-    return te
+        keepers = [i for i, t in enumerate(tasks) if t["kind"] == "callable" and t.get("keep")]
+        if keepers and rng.random() < 0.12:
+            tasks.append({"kind": "again", "of": rng.choice(keepers)})
+            continue
+        derived = [i for i in cand if tasks[i]["kind"] == "with"]
+        base = rng.choice(derived) if derived and rng.random() < 0.55 else rng.choice(cand)
+        tasks.append(gen_with(rng, tasks, base, pick))
+    return tasks
 
 
 def compat(o, i):
@@ -255,10 +661,11 @@ def compat(o, i):
     return None
 
 
-def gen_tree(rng, texprs, usable, nsteps):
+def gen_tree(rng, tasks, usable, nsteps):
     """steps: [parent, op]; op = ["node", name, tix] | ["edge", source, sink, into, frum-or-None]"""
     descs = [{"nodes": {}, "edges": []}]
     steps = []
+    NODE_NAMES = globals()["NODE_NAMES"] + ([f"n{i}" for i in range(40)] if nsteps > 20 else [])     # a long tree is also a wide job
     for _ in range(nsteps):
         p = len(descs) - 1 if rng.random() < 0.7 else rng.randrange(len(descs))
         d = descs[p]
@@ -266,9 +673,9 @@ def gen_tree(rng, texprs, usable, nsteps):
         if not usable or (len(names) >= 2 and rng.random() < 0.6) or (len(names) == 1 and rng.random() < 0.15):
             src = rng.choice(names) if names and rng.random() < 0.9 else rng.choice(NODE_NAMES + ["ghost"])
             snk = rng.choice(names) if names and rng.random() < 0.9 else rng.choice(NODE_NAMES + ["ghost"])
-            so = spec_schema(texprs[d["nodes"][src]])[1] if src in d["nodes"] else {"0": "Any"}
+            so = spec_schema(tasks, d["nodes"][src])[1] if src in d["nodes"] else {"0": "Any"}
             frum = rng.choice(list(so)) if rng.random() < 0.88 else rng.choice(["1", "nope", ""])
-            si = spec_schema(texprs[d["nodes"][snk]])[0] if snk in d["nodes"] else {}
+            si = spec_schema(tasks, d["nodes"][snk])[0] if snk in d["nodes"] else {}
             r = rng.random()
             if r < 0.7 and si:
                 good = [k for k, t in si.items() if compat(so.get(frum, "Any"), t)]
@@ -293,24 +700,56 @@ def gen_tree(rng, texprs, usable, nsteps):
 
 def gen_case(rng, odd=None):
     odd = (rng.random() < 0.15) if odd is None else odd
-    texprs = [gen_texpr(rng, odd) for _ in range(rng.randrange(2, 6))]
-    return {"texprs": texprs, "steps": None, "nsteps": rng.randrange(3, 13), "odd": odd, "seed": rng.randrange(2**32)}
+    case = {"values": gen_values(rng)}
+    pick = Picker(make_values(case))
+    case.update({"tasks": gen_tasks(rng, odd, pick), "steps": None, "nsteps": rng.randrange(3, 13) if rng.random() < 0.97 else rng.randrange(30, 60), "odd": odd, "seed": rng.randrange(2**32)})
+    return case
 
 
 def matrix_cases():
-    """exhaustive small scope: every (output type, parameter type) pair on one edge, every (value, parameter type) static"""
-    tys = BUILTIN + ["Any"]
+    """exhaustive small scopes: every (output type, parameter type) pair on one edge; every (value, parameter type) static;
+    every value kind bound FIRST (by keyword, by position, as a default) and the builder extended afterwards"""
     out = []
-    for o in tys:
-        for i in tys:
+    for o in TYS:
+        for i in TYS:
             te = [{"kind": "raw", "ischema": [], "oschema": [["0", o]], "kw": [], "ps": [], "builder": False},
                   {"kind": "raw", "ischema": [["x", i]], "oschema": [["0", "Any"]], "kw": [], "ps": [], "builder": False}]
-            out.append({"texprs": te, "steps": [[0, ["node", "a", 0]], [1, ["node", "b", 1]], [2, ["edge", "a", "b", "x", None]]], "odd": False, "matrix": f"edge {o}->{i}"})
-    for v in range(len(VALUES)):
-        for i in tys:
-            te = [{"kind": "with", "base": {"kind": "entrypoint", "ischema": [["x", i]], "out": "int"}, "args": [], "kwargs": [["x", v]]}]
-            out.append({"texprs": te, "steps": [[0, ["node", "a", 0]]], "odd": False, "matrix": f"static {VALUES[v][0]}:{i}"})
+            out.append({"values": [], "tasks": te, "steps": [[0, ["node", "a", 0]], [1, ["node", "b", 1]], [2, ["edge", "a", "b", "x", None]]], "odd": False, "matrix": f"edge {o}->{i}"})
+    for src in MATRIX_VALUES:
+        for i in TYS:
+            te = [{"kind": "entrypoint", "ischema": [["x", i]], "out": "int"}, {"kind": "with", "base": 0, "args": [], "kwargs": [["x", 0]]}]
+            out.append({"values": [src], "tasks": te, "steps": [[0, ["node", "a", 1]]], "odd": False, "matrix": f"static {src}:{i}"})
+    for src in sorted(set(MATRIX_VALUES + ODD_ATOMS + EMPTY + BIG + ["cyc()", "[Area(1.0, 2.0)]", "{'k': Req(param='b', step=2)}", "Area(Req(), Area(0.0))"])):
+        f = {"kind": "callable", "flavour": "def", "keep": True, "env": None, "ret": ["empty"],
+             "params": [{"name": "p", "kind": "poskw", "ann": ["empty"], "default": None}, {"name": "q", "kind": "poskw", "ann": ["empty"], "default": 0},
+                        {"name": "r", "kind": "kwonly", "ann": ["empty"], "default": 1}]}
+        te = [f, {"kind": "with", "base": 0, "args": [0], "kwargs": [["p", 0]]}, {"kind": "with", "base": 1, "args": [], "kwargs": [["r", 0]]},
+              {"kind": "with", "base": 2, "args": [1, 1], "kwargs": []}, {"kind": "with", "base": 0, "args": [], "kwargs": [["q", 1]]}]
+        out.append({"values": [src, "7"], "tasks": te, "steps": [[0, ["node", "a", 3]], [1, ["node", "b", 4]], [2, ["node", "c", 0]], [3, ["edge", "a", "b", "p", None]]],
+                    "odd": False, "matrix": f"rebind {src}"})
     return out
+
+
+def upgrade(case):
+    """a case stored by an earlier version of this harness (nested `texprs`, values = indexes into the old fixed pool)"""
+    if "tasks" in case:
+        return case
+    old_values = ["0", "1", "-5", "1099511627776", "True", "False", "'a'", "''", "'int'", "1.5", "b'x'", "[1, 2]", "{'k': 1}", "(1, 2)", "None"]
+    tasks, final = [], []
+
+    def add(te):
+        if te["kind"] == "with":
+            b = add(te["base"])
+            tasks.append({"kind": "with", "base": b, "args": te["args"], "kwargs": te["kwargs"]})
+        elif te["kind"] == "callable":
+            tasks.append({**te, "flavour": "def", "keep": False, "env": None})
+        else:
+            tasks.append(te)
+        return len(tasks) - 1
+    for te in case["texprs"]:
+        final.append(add(te))
+    steps = None if case.get("steps") is None else [[p, (["node", op[1], final[op[2]]] if op[0] == "node" else op)] for p, op in case["steps"]]
+    return {**{k: v for k, v in case.items() if k != "texprs"}, "values": old_values, "tasks": tasks, "steps": steps, "final": final}
 
 
 # ------------------------------------------------------------------------------ run one case on the implementation
@@ -318,61 +757,89 @@ def exn_name(e):
     return type(e).__name__
 
 
+def describe(tasks, ix):
+    te = tasks[ix]
+    if te["kind"] == "with":
+        return f"task #{ix} = #{te['base']}.with_values(*{te['args']}, **{dict(map(tuple, te['kwargs']))})"
+    if te["kind"] == "callable":
+        return f"task #{ix} = from_callable(<{te.get('flavour', 'def')}>)"
+    if te["kind"] == "again":
+        return f"task #{ix} = from_callable(<the callable of #{te['of']}, again>)"
+    return f"task #{ix} = <{te['kind']}>"
+
+
 def run_case(case):
     """returns (observations, failures).  failures: list of (signature, what)"""
     from cascade.low.builders import JobBuilder
-    from cascade.low.core import JobInstance
+    from cascade.low.core import JobInstance, TaskDefinition
     import random
     fails = []
-    texprs = case["texprs"]
+    tasks = case["tasks"]
+    env = Env(case)
+    vc = env.vcanon
+    srcs = case["values"]
+
+    def vname(i):
+        return f"value #{i} ({srcs[i] if len(srcs[i]) < 60 else srcs[i][:60] + '...'})"
+
     objs, tobs, tcanon = [], [], []
-    for te in texprs:
+    for ix, te in enumerate(tasks):
         try:
-            # with_values oracle needs the object it was derived from: realise step by step
-            chain = []
-            cur = te
-            while cur["kind"] == "with":
-                chain.append(cur)
-                cur = cur["base"]
-            t = realise(cur)
-            for w in reversed(chain):
-                before = task_canon(t)
-                args = [POOL[i] for i in w["args"]]
-                kwargs = {n: POOL[i] for n, i in w["kwargs"]}
-                t2 = t.with_values(*args, **kwargs)
-                after_base = task_canon(t)
-                got = task_canon(t2)
-                exp_kw = dict(before["kw"])
-                exp_kw.update({n: i for n, i in w["kwargs"]})
-                exp_ps = dict(before["ps"])
-                exp_ps.update({str(p): i for p, i in enumerate(w["args"])})
-                if got["kw"] != exp_kw or got["ps"] != exp_ps:
-                    fails.append(("values-not-carried", f"with_values(*{w['args']}, **{w['kwargs']}) on statics kw={before['kw']} ps={before['ps']} gave kw={got['kw']} ps={got['ps']} (value = pool index)"))
-                if got["ischema"] != before["ischema"] or got["oschema"] != before["oschema"]:
-                    fails.append(("values-not-carried", "with_values changed the task definition"))
-                if after_base != before or t2 is t:
-                    fails.append(("earlier-object-mutated", f"with_values mutated the task it was derived from: {before} -> {after_base}"))
-                t = t2
+            parent = objs[te["base"]] if te["kind"] == "with" else None
+            before = task_canon(parent) if parent is not None else None
+            t = env.realise(ix, objs)
+            got = task_canon(t)
+            # the statics are exactly the values given so far: the WHOLE value, as the generator made it
+            ekw, eps = spec_statics(tasks, ix)
+            for label, g, e in (("keyword", got["kw"], ekw), ("position", got["ps"], eps)):
+                for name in sorted(set(g) | set(e)):
+                    if name not in g:
+                        fails.append(("values-not-carried", f"{describe(tasks, ix)}: {label} {name!r} was given {vname(e[name])} but the task has nothing there"))
+                    elif name not in e:
+                        fails.append(("values-not-carried", f"{describe(tasks, ix)}: the task has {show(g[name])} under {label} {name!r}, nobody gave that"))
+                    elif g[name] != vc[e[name]]:
+                        fails.append(("values-not-carried", f"{describe(tasks, ix)}: {label} {name!r} was given {vname(e[name])} = {show(vc[e[name]])} but the task carries {show(g[name])}"))
+            if te["kind"] == "callable" and got["def"][2] != list(te.get("env") or []):
+                fails.append(("values-not-carried", f"{describe(tasks, ix)}: environment {te.get('env')} was given, the task carries {got['def'][2]}"))
+            if parent is not None:
+                if got["ischema"] != before["ischema"] or got["oschema"] != before["oschema"] or got["def"] != before["def"]:
+                    fails.append(("values-not-carried", f"{describe(tasks, ix)}: with_values changed the task definition"))
+                if task_canon(parent) != before or t is parent:
+                    fails.append(("earlier-object-mutated", f"{describe(tasks, ix)}: with_values changed the task it was derived from: {jdump(before)[:300]} -> {jdump(task_canon(parent))[:300]}"))
+            # the task still carries the callable it was made from
+            tok = env.tokens.get(ix)
+            if tok is not None:
+                try:
+                    carried = doc_of(TaskDefinition.func_dec(t.definition.func))
+                except Exception as e:
+                    carried = f"<{exn_name(e)}>"
+                if carried != tok:
+                    fails.append(("values-not-carried", f"{describe(tasks, ix)}: the task's payload is not the callable given (marker {carried!r}, expected {tok!r})"))
             objs.append(t)
-            tobs.append(("task", task_canon(t)))
-            tcanon.append(task_canon(t))
+            tobs.append(("task", got))
+            tcanon.append(got)
         except Exception as e:
-            if te_in_domain(te):
-                fails.append(("task-construction-raised", f"{exn_name(e)}: {e} for {jdump(te)[:300]}"))
+            if te_in_domain(tasks, ix) and not isinstance(e, LookupError):
+                fails.append(("task-construction-raised", f"{describe(tasks, ix)}: {exn_name(e)}: {e} for {jdump(te)[:300]}"))
             objs.append(None)
             tobs.append(("raised", exn_name(e)))
             tcanon.append(None)
     usable = [i for i, o in enumerate(objs) if o is not None]
     if case.get("steps") is None:
-        case["steps"] = gen_tree(random.Random(case["seed"]), texprs, usable, case["nsteps"])
-    steps = case["steps"]
+        case["steps"] = gen_tree(random.Random(case["seed"]), tasks, usable, case["nsteps"])
+    steps = []
+    for p, op in case["steps"]:                   # (a stored case whose task can no longer be created ends there)
+        if op[0] == "node" and objs[op[2]] is None:
+            break
+        steps.append([p, op])
+    case["steps"] = steps
 
     builders = [JobBuilder()]
     descs = [{"nodes": {}, "edges": []}]
     results = []          # per builder: ("job", canon, obj) | ("problems", n) | ("raised", name)
 
     def build_and_check(b, d):
-        in_dom = all(te_in_domain(texprs[ix]) for ix in d["nodes"].values()) and all(isinstance(e[3], (str, int)) for e in d["edges"])
+        in_dom = all(te_in_domain(tasks, ix) for ix in d["nodes"].values()) and all(isinstance(e[3], (str, int)) for e in d["edges"])
         try:
             r = b.build()
         except Exception as e:
@@ -388,7 +855,14 @@ def run_case(case):
             # the job carries exactly what was given
             exp_tasks = {n: tcanon[ix] for n, ix in d["nodes"].items()}
             if jc["tasks"] != exp_tasks:
-                fails.append(("values-not-carried", f"job tasks differ from the tasks given: got {jdump(jc['tasks'])[:400]} expected {jdump(exp_tasks)[:400]}"))
+                what = f"job tasks differ from the tasks given: got {jdump(jc['tasks'])[:400]} expected {jdump(exp_tasks)[:400]}"
+                for n in exp_tasks:
+                    for part in ("kw", "ps"):
+                        g, x = jc["tasks"].get(n, {}).get(part, {}), exp_tasks[n][part]
+                        for k in x:
+                            if k in g and g[k] != x[k]:
+                                what = f"node {n!r} {'keyword' if part == 'kw' else 'position'} {k!r}: the task given carries {show(x[k])}, the job carries {show(g[k])}"
+                fails.append(("values-not-carried", what))
             exp_edges = sorted(jdump([s, o, k, i if isinstance(i, str) else None, i if not isinstance(i, str) else None]) for s, o, k, i in d["edges"])
             if sorted(jdump(list(x)) for x in jc["edges"]) != exp_edges:
                 fails.append(("edges-not-carried", f"job edges {jc['edges']} differ from the edges given {d['edges']}"))
@@ -399,14 +873,14 @@ def run_case(case):
                 if s not in d["nodes"]:
                     fails.append(("accepted-dangling-source-task", f"accepted edge from missing task {s!r}"))
                     continue
-                so = spec_schema(texprs[d["nodes"][s]])[1]
+                so = spec_schema(tasks, d["nodes"][s])[1]
                 if o not in so:
                     fails.append(("accepted-dangling-source-output", f"accepted edge from missing output {s!r}.{o!r} (outputs {list(so)})"))
                 if k not in d["nodes"]:
                     fails.append(("accepted-dangling-sink-task", f"accepted edge into missing task {k!r}"))
                     continue
                 if ikw is not None:
-                    si = spec_schema(texprs[d["nodes"][k]])[0]
+                    si = spec_schema(tasks, d["nodes"][k])[0]
                     if ikw not in si:
                         fails.append(("accepted-dangling-sink-param", f"accepted edge into missing parameter {k!r}.{ikw!r} (parameters {list(si)})"))
                     elif o in so and compat(so[o], si[ikw]) is False:
@@ -443,17 +917,14 @@ def run_case(case):
             fails.append(("earlier-object-mutated", f"builder #{ix} builds something else after later operations on derived builders: {str(r[:2])[:300]} -> {str(r2[:2])[:300]}"))
     for ix, (o, c) in enumerate(zip(objs, tcanon)):
         if o is not None and task_canon(o) != c:
-            fails.append(("earlier-object-mutated", f"task #{ix} changed while jobs were built"))
-    return {"tobs": tobs, "results": [r[:2] for r in results], "descs": descs}, fails
+            fails.append(("earlier-object-mutated", f"task #{ix} changed after it was made (later with_values on it or on tasks derived from it, or builds): {jdump(c)[:300]} -> {jdump(task_canon(o))[:300]}"))
+    for i, (v, c) in enumerate(zip(env.values, vc)):
+        if canon(v) != c:
+            fails.append(("earlier-object-mutated", f"{vname(i)} given to the builders was changed in place: {show(c)} -> {show(canon(v))}"))
+    return {"tobs": tobs, "results": [r[:2] for r in results], "descs": descs, "vcanon": vc}, fails
 
 
 # ------------------------------------------------------------------------------ Coq terms
-def cval(i):
-    if not isinstance(i, int):
-        raise ValueError(f"value outside the pool: {i}")
-    return f"(V {cstr(VALUES[i][1])} {cN(i)})"
-
-
 def cdict(items, f):
     return clist([f"({cstr(k)}, {f(v)})" for k, v in items])
 
@@ -472,28 +943,66 @@ def cann(a):
 KIND = {"posonly": "PosOnly", "poskw": "PosOrKw", "varpos": "VarPos", "kwonly": "KwOnly", "varkw": "VarKw"}
 
 
-def ctexpr(te):
-    k = te["kind"]
-    if k == "callable":
-        ps = clist([f"P {cstr(p['name'])} {KIND[p['kind']]} {cann(p['ann'])} {copt(p['default'], cval)}" for p in te["params"]])
-        return f"(TFromCallable {ps} {cann(te['ret'])})"
-    if k == "entrypoint":
-        return f"(TFromEntrypoint {cdict(te['ischema'], cstr)} {cstr(te['out'])})"
-    if k == "raw":
-        return f"(TRaw (T (TD {cdict(te['ischema'], cstr)} {cdict(te['oschema'], cstr)}) {cdict(te['kw'], cval)} {cdict(te['ps'], cval)}))"
-    return f"(TWithValues {ctexpr(te['base'])} {clist(te['args'], cval)} {cdict(te['kwargs'], cval)})"
-
-
-def ctask(c):
-    return f"(T (TD {cdict(c['ischema'].items(), cstr)} {cdict(c['oschema'].items(), cstr)}) {cdict(c['kw'].items(), cval)} {cdict(c['ps'].items(), cval)})"
-
-
-def cinto(i):
-    return f"(IntoKw {cstr(i)})" if isinstance(i, str) else f"(IntoPs {cZ(i)})"
-
-
 def ccase(case, obs):
-    tes = clist([f"({ctexpr(te)}, " + (f"TObsTask {ctask(o[1])}" if o[0] == "task" else f"TObsRaised {cstr(o[1])}") + ")" for te, o in zip(case["texprs"], obs["tobs"])])
+    tasks = case["tasks"]
+    vc = obs["vcanon"]
+    names = {}
+    lets = []
+    for i, c in enumerate(vc):                       # values with parts are let-bound once per case
+        if c[0] != "a" and jdump(c) not in names:
+            lets.append(f"let v{i} := {cvalue(c, names)} in")
+            names[jdump(c)] = f"v{i}"
+
+    def cv(i):
+        return cvalue(vc[i], names)
+
+    def co(c):                                       # an observed value
+        return cvalue(c, names)
+
+    enames = {}
+
+    def ctexpr(ix):                                  # task expressions are let-bound too: derived tasks repeat their base
+        if ix not in enames:
+            body = ctexpr_body(ix)
+            lets.append(f"let e{ix} := {body} in")
+            enames[ix] = f"e{ix}"
+        return enames[ix]
+
+    def ctexpr_body(ix):
+        te = tasks[ix]
+        k = te["kind"]
+        if k == "callable":
+            ps = clist([f"P {cstr(p['name'])} {KIND[p['kind']]} {cann(p['ann'])} {copt(p['default'], cv)}" for p in te["params"]])
+            return f"(TFromCallable {ps} {cann(te['ret'])})"
+        if k == "again":
+            return ctexpr(te["of"])
+        if k == "entrypoint":
+            return f"(TFromEntrypoint {cdict(te['ischema'], cstr)} {cstr(te['out'])})"
+        if k == "raw":
+            return f"(TRaw (T (TD {cdict(te['ischema'], cstr)} {cdict(te['oschema'], cstr)}) {cdict(te['kw'], cv)} {cdict(te['ps'], cv)}))"
+        return f"(TWithValues {ctexpr(te['base'])} {clist(te['args'], cv)} {cdict(te['kwargs'], cv)})"
+
+    tnames = {}
+
+    def ctask(c):                                    # an observed task: let-bound once per case, jobs repeat their tasks
+        key = jdump([c[k] for k in ("ischema", "oschema", "kw", "ps")])
+        if key not in tnames:
+            lets.append(f"let t{len(tnames)} := (T (TD {cdict(c['ischema'].items(), cstr)} {cdict(c['oschema'].items(), cstr)}) {cdict(c['kw'].items(), co)} {cdict(c['ps'].items(), co)}) in")
+            tnames[key] = f"t{len(tnames)}"
+        return tnames[key]
+
+    def cinto(i):
+        return f"(IntoKw {cstr(i)})" if isinstance(i, str) else f"(IntoPs {cZ(i)})"
+
+    tes = []
+    for ix, o in enumerate(obs["tobs"]):
+        if o[0] == "raised" and o[1] == "LookupError":       # never attempted: an ancestor could not be created, the model fails the same way
+            j = ix
+            while tasks[j]["kind"] == "with" and obs["tobs"][j] == ("raised", "LookupError"):
+                j = tasks[j]["base"]
+            tes.append(f"({ctexpr(ix)}, TObsRaised {cstr(obs['tobs'][j][1])})")
+            continue
+        tes.append(f"({ctexpr(ix)}, " + (f"TObsTask {ctask(o[1])}" if o[0] == "task" else f"TObsRaised {cstr(o[1])}") + ")")
     steps = []
     for p, op in case["steps"]:
         if op[0] == "node":
@@ -510,24 +1019,70 @@ def ccase(case, obs):
             bobs.append(f"BObsProblems {cnat(r[1])}")
         else:
             bobs.append(f"BObsRaised {cstr(r[1])}")
-    return f"({tes}, {clist(steps)}, {clist(bobs)})"
+    return "(" + " ".join(lets) + f" ({clist(tes)}, {clist(steps)}, {clist(bobs)}))"
+
+
+SHOW = ('Definition show (bs : list bool) : string := String.concat "" (List.map (fun b : bool => if b then "1" else "0") bs).\n')
+
+
+def coq_check(terms, shard):
+    """`check_case case` for every case by vm_compute; at most 4 coqc at a time; the cases are the argument of the Eval
+    (nothing of them goes into a .vo); file names carry the process id"""
+    from concurrent.futures import ThreadPoolExecutor
+    d = BUILD / "C19"
+    d.mkdir(parents=True, exist_ok=True)
+    files = []
+    for k in range(0, len(terms), shard):
+        chunk = terms[k:k + shard]
+        p = d / f"trees_p{os.getpid()}_{k // shard}.v"
+        p.write_text(HEADER + SHOW + "Eval vm_compute in show (List.map check_case ([\n" + ";\n".join("  " + c for c in chunk) + "\n] : list case)).\n")
+        files.append((p, len(chunk)))
+    results, logs = [], []
+    try:
+        with ThreadPoolExecutor(max_workers=4) as ex:
+            outs = list(ex.map(lambda f: coq_eval_file(f[0], 900), files))
+        for (p, n), (rc, text) in zip(files, outs):
+            m = re.search(r'=\s*"([01]*)"', text.replace("\n", "").replace(" ", "")) if rc == 0 else None
+            if rc != 0 or not m or len(m.group(1)) != n:
+                results.extend([None] * n)
+                logs.append(f"{p.name}: rc={rc} {text[-1500:]}")
+            else:
+                results.extend(c == "1" for c in m.group(1))
+    finally:
+        for p, _ in files:
+            for q in (p, p.with_suffix(".vo"), p.with_suffix(".vok"), p.with_suffix(".vos"), p.with_suffix(".glob"), p.parent / ("." + p.stem + ".aux")):
+                try:
+                    q.unlink()
+                except OSError:
+                    pass
+    return results, logs
 
 
 # ------------------------------------------------------------------------------ driver
 def stored(case):
-    return {k: case[k] for k in ("texprs", "steps", "odd") if k in case}
+    return {k: case[k] for k in ("values", "tasks", "steps", "odd", "matrix") if k in case}
+
+
+def value_kinds(c, out):
+    out.add({"a": "atom:", "s": "seq:", "m": "map:", "o": "obj:"}[c[0]] + (c[1] if c[0] != "o" else c[1] + ":" + c[2]))
+    for x in (c[2] if c[0] == "s" else [y for kv in c[2] for y in kv] if c[0] == "m" else [kv[1] for kv in c[3]] if c[0] == "o" else []):
+        value_kinds(x, out)
 
 
 def run(ctx, res):
-    res.rule = ("one evaluation = one JobBuilder.build() of one builder of a generated tree of derived builders (plus the exhaustive type-pair / value-type matrices); "
-                "non-trivial = the builder has at least one edge or one static value; distinct = distinct (tasks as observed, edges) description")
+    res.rule = ("one evaluation = one JobBuilder.build() of one builder of a generated tree of derived builders (plus the exhaustive type-pair / value-type / "
+                "re-binding matrices); non-trivial = the builder has at least one edge or one static value; distinct = distinct (tasks as observed, edges) description")
+    bad = check_class_table()
+    if bad:
+        res.disagree("the class table of Low/BuildersCheck.v (class_bases) is not the real issubclass: " + "; ".join(bad[:3]), {"table": bad[:20]})
     rng = ctx.sub_rng("trees")
-    cases = matrix_cases() + [gen_case(rng) for _ in range(ctx.n(1200, 30000))]
+    cases = matrix_cases() + [gen_case(rng) for _ in range(ctx.n(700, 27000))]
     terms, metas = [], []
     for case in cases:
         obs, fails = run_case(case)
         for sig, what in fails:
             res.fail(sig, what, stored(case))
+        tasks = case["tasks"]
         for d, r in zip(obs["descs"], obs["results"]):
             res.evaluations += 1
             res.count("outcome:" + r[0])
@@ -536,21 +1091,34 @@ def run(ctx, res):
                 if any(isinstance(e[3], str) for e in d["edges"]):
                     res.count("outcome:job-with-keyword-edges")
             res.count("edges:" + str(min(len(d["edges"]), 6)) + ("+" if len(d["edges"]) >= 6 else ""))
-            tasks = {n: obs["tobs"][ix][1] for n, ix in d["nodes"].items()}
-            if d["edges"] or any(t["kw"] or t["ps"] for t in tasks.values()):
-                res.nontrivial_keys.add(jdump([tasks, d["edges"]]))
+            tt = {n: obs["tobs"][ix][1] for n, ix in d["nodes"].items()}
+            if d["edges"] or any(t["kw"] or t["ps"] for t in tt.values()):
+                res.nontrivial_keys.add(jdump([tt, d["edges"]]))
         res.count("case:" + ("matrix" if "matrix" in case else "odd-annotations" if case["odd"] else "in-domain"))
-        for o in obs["tobs"]:
+        for ix, o in enumerate(obs["tobs"]):
             res.count("task:" + ("created" if o[0] == "task" else "raised:" + o[1]))
+            if o[0] == "task":
+                te = tasks[ix]
+                res.count("task-kind:" + (te["kind"] if te["kind"] != "callable" else "callable:" + te.get("flavour", "def")))
+                depth, j = 0, ix
+                while tasks[j]["kind"] == "with":
+                    depth, j = depth + 1, tasks[j]["base"]
+                if depth:
+                    res.count("with_values-depth:" + str(min(depth, 4)))
+                kinds = set()
+                for c in list(o[1]["kw"].values()) + list(o[1]["ps"].values()):
+                    value_kinds(c, kinds)
+                for kd in kinds:
+                    res.count("bound-value:" + kd)
         if len(res.samples) < 3 and "matrix" not in case and any(r[0] == "job" and r[1]["edges"] for r in obs["results"]):
-            res.samples.append({"steps": case["steps"], "outcomes": [r[0] if r[0] != "problems" else f"problems:{r[1]}" for r in obs["results"]],
-                                "tasks": [o[1] for o in obs["tobs"]]})
+            res.samples.append({"values": case["values"], "steps": case["steps"], "outcomes": [r[0] if r[0] != "problems" else f"problems:{r[1]}" for r in obs["results"]],
+                                "tasks": [{k: v for k, v in o[1].items() if k != "def"} if o[0] == "task" else o[1] for o in obs["tobs"]]})
         try:
             terms.append(ccase(case, obs))
             metas.append(case)
-        except ValueError as e:          # a foreign value or unprintable name: the oracle has already complained
+        except ValueError as e:          # an unprintable name: the oracle has already complained
             res.disagree(f"case cannot be written as a Coq term: {e}", stored(case))
-    r, logs = coq_results("C19", HEADER, terms, "check_case", shard=ctx.n(120, 400), tag="trees")
+    r, logs = coq_check(terms, ctx.n(max(100, -(-len(terms) // 8)), 400))      # quick: two rounds of four coqc
     res.corr_checked += len(r)
     for ok, case in zip(r, metas):
         if ok is not True:
@@ -561,7 +1129,7 @@ def run(ctx, res):
 
 def shrink(ctx, f):
     """shortest prefix of the tree that still fails with the same signature"""
-    case = f["case"]
+    case = upgrade(f["case"])
     if not case.get("steps"):
         return f
     for n in range(len(case["steps"]) + 1):
@@ -579,6 +1147,13 @@ def shrink(ctx, f):
 def search(ctx, res):
     import random
     rng = random.Random(f"C19:{ctx.seed}:search")
+    for c in matrix_cases():
+        try:
+            _, fails = run_case(c)
+        except Exception as e:
+            return {"signature": "harness-cannot-drive-builders", "what": repr(e), "case": stored(c)}
+        if fails:
+            return shrink(ctx, {"signature": fails[0][0], "what": fails[0][1], "case": stored(c)})
     for k in range(6000):
         case = gen_case(rng, odd=False)
         try:
@@ -593,9 +1168,9 @@ def search(ctx, res):
 
 def replay(ctx, case):
     c = case.get("case", case)
-    if "texprs" not in c or c.get("steps") is None:
+    if ("tasks" not in c and "texprs" not in c) or c.get("steps") is None:
         return {"fails": None, "note": "no concrete input stored (proof / correspondence breakage): re-run ./check C19"}
-    _, fails = run_case(dict(c))
+    _, fails = run_case(upgrade(dict(c)))
     sig = case.get("signature")
     hit = [f for f in fails if sig is None or f[0] == sig]
     return {"fails": bool(hit), "failures": [list(f) for f in fails[:5]]}
